@@ -271,7 +271,12 @@ impl BlockMode for RecBm {
     }
     fn drop_scan(self: Box<Self>) -> (Vec<u8>, Vec<u8>) {
         tick();
-        self.inner.drop_scan()
+        let me = *self;
+        let r = me.inner.drop_scan();
+        if recording() {
+            push(Op { id: me.id, new_id: 0, method: "drop_scan".into(), args: vec![], inp: vec![], out_pre: r.1.clone(), ret: hex(&r.0), out_post: vec![] });
+        }
+        r
     }
 }
 
@@ -365,7 +370,12 @@ impl Core for RecCore {
     }
     fn drop_scan(self: Box<Self>) -> (Vec<u8>, Vec<u8>) {
         tick();
-        self.inner.drop_scan()
+        let me = *self;
+        let r = me.inner.drop_scan();
+        if recording() {
+            push(Op { id: me.id, new_id: 0, method: "drop_scan".into(), args: vec![], inp: vec![], out_pre: r.1.clone(), ret: hex(&r.0), out_post: vec![] });
+        }
+        r
     }
 }
 
@@ -448,7 +458,12 @@ impl Stream for RecStream {
     }
     fn drop_scan(self: Box<Self>) -> (Vec<u8>, Vec<u8>) {
         tick();
-        self.inner.drop_scan()
+        let me = *self;
+        let r = me.inner.drop_scan();
+        if recording() {
+            push(Op { id: me.id, new_id: 0, method: "drop_scan".into(), args: vec![], inp: vec![], out_pre: r.1.clone(), ret: hex(&r.0), out_post: vec![] });
+        }
+        r
     }
 }
 
@@ -488,7 +503,12 @@ impl BufCfb for RecBuf {
     }
     fn drop_scan(self: Box<Self>) -> (Vec<u8>, Vec<u8>) {
         tick();
-        self.inner.drop_scan()
+        let me = *self;
+        let r = me.inner.drop_scan();
+        if recording() {
+            push(Op { id: me.id, new_id: 0, method: "drop_scan".into(), args: vec![], inp: vec![], out_pre: r.1.clone(), ret: hex(&r.0), out_post: vec![] });
+        }
+        r
     }
 }
 
@@ -691,6 +711,12 @@ pub fn replay(reg: &Registry, ops: &[Op]) -> Result<Vec<Op>, String> {
                     o2.out_post = out;
                     Obj::Gone
                 }
+                "drop_scan" => {
+                    let r = b.drop_scan();
+                    o2.ret = hex(&r.0);
+                    o2.out_pre = r.1;
+                    Obj::Gone
+                }
                 m => return Err(format!("unknown block-mode method {m}")),
             },
             Obj::Core(mut c) => match op.method.as_str() {
@@ -748,6 +774,12 @@ pub fn replay(reg: &Registry, ops: &[Op]) -> Result<Vec<Op>, String> {
                     newobj = Some(Obj::Stream(c.into_stream()));
                     Obj::Gone
                 }
+                "drop_scan" => {
+                    let r = c.drop_scan();
+                    o2.ret = hex(&r.0);
+                    o2.out_pre = r.1;
+                    Obj::Gone
+                }
                 m => return Err(format!("unknown core method {m}")),
             },
             Obj::Stream(mut s) => match op.method.as_str() {
@@ -790,6 +822,12 @@ pub fn replay(reg: &Registry, ops: &[Op]) -> Result<Vec<Op>, String> {
                     o2.ret = s.debug();
                     Obj::Stream(s)
                 }
+                "drop_scan" => {
+                    let r = s.drop_scan();
+                    o2.ret = hex(&r.0);
+                    o2.out_pre = r.1;
+                    Obj::Gone
+                }
                 m => return Err(format!("unknown stream method {m}")),
             },
             Obj::Buf(mut b) => match op.method.as_str() {
@@ -810,6 +848,12 @@ pub fn replay(reg: &Registry, ops: &[Op]) -> Result<Vec<Op>, String> {
                 "debug" => {
                     o2.ret = b.debug();
                     Obj::Buf(b)
+                }
+                "drop_scan" => {
+                    let r = b.drop_scan();
+                    o2.ret = hex(&r.0);
+                    o2.out_pre = r.1;
+                    Obj::Gone
                 }
                 m => return Err(format!("unknown bufcfb method {m}")),
             },
